@@ -694,7 +694,10 @@ class MapfileTransformer(Transformer):
     def list(self, t):
         # http://www.mapserver.org/mapfile/expressions.html#list-expressions
         v = t[0]
-        list_values = ",".join([str(s) for s in t])
+        # the items are kept as they were written, an attribute binding with its brackets
+        list_values = ",".join(
+            [s.value if s.value == f"[{s}]" else str(s) for s in t]
+        )
         v.value = "{%s}" % list_values
         return v
 
